@@ -87,7 +87,7 @@ def sched(req):
     except Exception as e:  # noqa: BLE001
         name = type(e).__name__
         mod = type(e).__module__
-        kind = "ParseError" if mod.startswith("lark") or name in ("ValueError", "MacroError") else "BuildCrash"
+        kind = "ParseError" if mod.startswith("lark") or name == "ValueError" or name.startswith("Macro") else "BuildCrash"
         return {"error": kind, "type": name, "msg": str(e)[:200]}
     n = 1 + int(req.get("again", 0))
     obs = None
